@@ -93,6 +93,10 @@ type op struct {
 	S   int    `json:"s"`
 	Api string `json:"api"`
 	Ok  bool   `json:"ok"`
+	// relay: the layout (Dnssec17!KFLayouts) and its templates for the two kinds of key text
+	Lay any   `json:"lay,omitempty"`
+	Rsa []int `json:"rsa,omitempty"`
+	Ec  []int `json:"ec,omitempty"`
 }
 
 type vec struct {
@@ -111,6 +115,7 @@ type vec struct {
 	Names []hx.B   `json:"names"`
 	Keys  []string `json:"keys"`
 	DKey  string   `json:"dkey"`
+	PKey  string   `json:"pkey"` // ds: the finding key of a panic (totality), from the specification
 	Salt  hx.B     `json:"salt"`
 	Iter  int      `json:"iter"`
 	Plan  plan     `json:"plan"`
@@ -169,8 +174,9 @@ func replay(path string) {
 		if v.Kind != "nsec3" && v.Kind != "keylife" { // those count one evaluation per spelling / per algorithm
 			sum.Evaluations++
 		}
+		// every call of the library is made under hx.Catch where it is made; this is the net below them
 		if p := hx.Catch(func() { one(i, v, &sum, seen, kl) }); p != "" {
-			sum.Mis("sec17/panic:"+v.Kind, "panic: "+p, v)
+			sum.Mis(panicKey[v.Kind], "panic: "+p, v)
 		}
 		if i%499 == 0 {
 			sum.Sample(v)
@@ -185,6 +191,11 @@ func replay(path string) {
 	sum.Print()
 }
 
+// Totality (Dnssec17): every operation returns a value on every input of the quantifier; a panic is a finding.
+// The keys are those Trace_Dnssec17!PanicKeyOf gives recorded calls.
+var panicKey = map[string]string{"keytag": "keytag/panics", "ds": "ds/panics", "nsec3": "nsec3/hashname-panics", "cover": "nsec3/cover-or-match-panics",
+	"validity": "validity/panics", "keylife": "keylife/panics"}
+
 func w32(l []int) uint32 { return uint32(l[0])<<16 | uint32(l[1]) }
 
 func one(i int, v *vec, sum *hx.Summary, seen map[string]bool, kl *keyLife) {
@@ -198,7 +209,11 @@ func one(i int, v *vec, sum *hx.Summary, seen map[string]bool, kl *keyLife) {
 	case "ds":
 		k := dnskey(v.Owner.String(), v.Flags, v.Proto, v.Alg, v.Key.Bytes())
 		seen[fmt.Sprintf("ds:%s:%d:%d", v.Owner.String(), v.Dt, len(v.Key))] = true
-		ds := k.ToDS(uint8(v.Dt))
+		var ds *dns.DS
+		if p := hx.Catch(func() { ds = k.ToDS(uint8(v.Dt)) }); p != "" {
+			sum.Mis(v.PKey, fmt.Sprintf("ToDS(%d) of owner %q panics: %s", v.Dt, v.Owner.String(), p), v)
+			return
+		}
 		h := hashByName(v.Hash)
 		if h == nil { // no RFC of the statement defines a digest for this type
 			if ds != nil && v.Dt != 5 { // AMBIG: 5 is the library's experimental SHA-512 constant
@@ -299,6 +314,7 @@ type evKeytag struct {
 	Alg   int    `json:"alg"`
 	Key   hx.B   `json:"key"`
 	Tag   int    `json:"tag"`
+	Panic string `json:"panic"` // the call panicked (no result): judged by the totality clause of the specification
 }
 type evDS struct {
 	Ev     string `json:"ev"`
@@ -311,13 +327,15 @@ type evDS struct {
 	IsNil  bool   `json:"isnil"`
 	Digest hx.B   `json:"digest"` // the hex text
 	DsTag  int    `json:"dstag"`
+	Panic  string `json:"panic"` // the call panicked (no result): judged by the totality clause of the specification
 }
 type evHash struct {
-	Ev   string `json:"ev"`
-	Name hx.B   `json:"name"`
-	Salt hx.B   `json:"salt"`
-	Iter int    `json:"iter"`
-	Hash hx.B   `json:"hash"` // the text HashName returned
+	Ev    string `json:"ev"`
+	Name  hx.B   `json:"name"`
+	Salt  hx.B   `json:"salt"`
+	Iter  int    `json:"iter"`
+	Hash  hx.B   `json:"hash"`  // the text HashName returned
+	Panic string `json:"panic"` // the call panicked (no result): judged by the totality clause of the specification
 }
 type evCover struct {
 	Ev    string `json:"ev"`
@@ -329,6 +347,7 @@ type evCover struct {
 	H     hx.B   `json:"h"` // HashName(name) as text
 	Cover bool   `json:"cover"`
 	Match bool   `json:"match"`
+	Panic string `json:"panic"` // the call panicked (no result): judged by the totality clause of the specification
 }
 type evValid struct {
 	Ev    string `json:"ev"`
@@ -336,6 +355,51 @@ type evValid struct {
 	E     []int  `json:"E"`
 	T     []int  `json:"t"` // epoch, hi, lo
 	Valid bool   `json:"valid"`
+	Panic string `json:"panic"` // the call panicked (no result): judged by the totality clause of the specification
+}
+
+// ------------------------------------------------------------------ the observed calls
+// One function per observed operation, used by record and rerun: the real call under hx.Catch, its inputs
+// and its result (or the panic) as an event.
+
+func obsKeytag(flags, proto, alg int, key []byte) evKeytag {
+	e := evKeytag{Ev: "keytag", Flags: flags, Proto: proto, Alg: alg, Key: hx.FromBytes(key)}
+	e.Panic = hx.Catch(func() { e.Tag = int(dnskey("x.", flags, proto, alg, key).KeyTag()) })
+	return e
+}
+
+func obsDS(owner string, flags, proto, alg int, key []byte, dt int) evDS {
+	e := evDS{Ev: "ds", Owner: hx.FromString(owner), Flags: flags, Proto: proto, Alg: alg, Key: hx.FromBytes(key), Dt: dt}
+	var ds *dns.DS
+	e.Panic = hx.Catch(func() { ds = dnskey(owner, flags, proto, alg, key).ToDS(uint8(dt)) })
+	e.IsNil = ds == nil
+	if ds != nil {
+		e.Digest, e.DsTag = hx.FromString(ds.Digest), int(ds.KeyTag)
+	}
+	return e
+}
+
+func obsHash(name string, salt []byte, iter int) evHash {
+	e := evHash{Ev: "hashname", Name: hx.FromString(name), Salt: hx.FromBytes(salt), Iter: iter}
+	e.Panic = hx.Catch(func() { e.Hash = hx.FromString(dns.HashName(name, dns.SHA1, uint16(iter), hex.EncodeToString(salt))) })
+	return e
+}
+
+// obsCover: hs = HashName(name) as observed before (the record was built around it)
+func obsCover(owner, next, name string, salt []byte, iter int, hs string) evCover {
+	rr := &dns.NSEC3{Hdr: dns.RR_Header{Name: owner, Rrtype: dns.TypeNSEC3, Class: dns.ClassINET}, Hash: dns.SHA1,
+		Iterations: uint16(iter), SaltLength: uint8(len(salt)), Salt: hex.EncodeToString(salt), HashLength: 20, NextDomain: next}
+	e := evCover{Ev: "cover", Owner: hx.FromString(owner), Next: hx.FromString(next), Name: hx.FromString(name), Salt: hx.FromBytes(salt), Iter: iter, H: hx.FromString(hs)}
+	e.Panic = hx.Catch(func() { e.Cover, e.Match = rr.Cover(name), rr.Match(name) })
+	return e
+}
+
+func obsValid(I, E []int, tl []int) evValid {
+	rr := &dns.RRSIG{Inception: w32(I), Expiration: w32(E)}
+	t := int64(tl[0])<<32 | int64(tl[1])<<16 | int64(tl[2])
+	e := evValid{Ev: "validity", I: I, E: E, T: tl}
+	e.Panic = hx.Catch(func() { e.Valid = rr.ValidityPeriod(time.Unix(t, 0)) })
+	return e
 }
 
 func randLabels(r *rand.Rand, maxLabels int) []string {
@@ -423,8 +487,7 @@ func record(out string, n int) {
 					key[j] = 255
 				}
 			}
-			e := evKeytag{Ev: "keytag", Flags: []int{0, 256, 257, 384, 385, r.Intn(65536)}[r.Intn(6)], Proto: []int{3, 3, r.Intn(256)}[r.Intn(3)], Alg: algs[r.Intn(len(algs))], Key: hx.FromBytes(key)}
-			e.Tag = int(dnskey("x.", e.Flags, e.Proto, e.Alg, key).KeyTag())
+			e := obsKeytag([]int{0, 256, 257, 384, 385, r.Intn(65536)}[r.Intn(6)], []int{3, 3, r.Intn(256)}[r.Intn(3)], algs[r.Intn(len(algs))], key)
 			seen[fmt.Sprint("kt", e.Flags, e.Proto, e.Alg, key)] = true
 			w.Emit(e)
 		case 1:
@@ -434,13 +497,9 @@ func record(out string, n int) {
 			if r.Intn(8) == 0 {
 				owner = respell(r, owner)
 			}
-			e := evDS{Ev: "ds", Owner: hx.FromString(owner), Flags: []int{256, 257, 385}[r.Intn(3)], Proto: 3, Alg: algs[r.Intn(len(algs))], Key: hx.FromBytes(key),
-				Dt: []int{1, 2, 4, 1, 2, 4, 0, 3, 5, 6, 255, r.Intn(256)}[r.Intn(12)]}
-			ds := dnskey(owner, e.Flags, e.Proto, e.Alg, key).ToDS(uint8(e.Dt))
-			e.IsNil = ds == nil
-			if ds != nil {
-				e.Digest, e.DsTag = hx.FromString(ds.Digest), int(ds.KeyTag)
-			}
+			flags, alg := []int{256, 257, 385}[r.Intn(3)], algs[r.Intn(len(algs))]
+			// digest types: the defined ones, their neighbours (0, 3, 5, 6), the octet boundaries, anything
+			e := obsDS(owner, flags, 3, alg, key, []int{1, 2, 4, 1, 2, 4, 0, 3, 5, 6, 7, 127, 128, 255, r.Intn(256), r.Intn(256)}[r.Intn(16)])
 			seen["ds"+owner+fmt.Sprint(e.Dt, key)] = true
 			w.Emit(e)
 		case 2:
@@ -454,8 +513,7 @@ func record(out string, n int) {
 			if r.Intn(25) == 0 {
 				iter = []int{255, 256, 65534, 65535}[r.Intn(4)]
 			}
-			e := evHash{Ev: "hashname", Name: hx.FromString(name), Salt: hx.FromBytes(salt), Iter: iter,
-				Hash: hx.FromString(dns.HashName(name, dns.SHA1, uint16(iter), hex.EncodeToString(salt)))}
+			e := obsHash(name, salt, iter)
 			seen["h"+name+fmt.Sprint(salt, iter)] = true
 			w.Emit(e)
 		case 3:
@@ -480,10 +538,12 @@ func record(out string, n int) {
 			salt := make([]byte, r.Intn(5))
 			r.Read(salt)
 			iter := r.Intn(4)
-			hs := dns.HashName(name, dns.SHA1, uint16(iter), hex.EncodeToString(salt))
+			he := obsHash(name, salt, iter)
+			hs := he.Hash.String()
 			hb, err := b32.DecodeString(strings.ToUpper(hs))
-			if err != nil || len(hb) != 20 {
-				hx.Die("HashName(%q) = %q", name, hs)
+			if he.Panic != "" || err != nil || len(hb) != 20 { // no hash to build a record around: the hashname event says so
+				w.Emit(he)
+				continue
 			}
 			H := new(big.Int).SetBytes(hb)
 			pick := func() []byte {
@@ -507,11 +567,8 @@ func record(out string, n int) {
 			if r.Intn(2) == 0 {
 				ol = strings.ToLower(ol)
 			}
-			rr := &dns.NSEC3{Hdr: dns.RR_Header{Name: ol + "." + zone, Rrtype: dns.TypeNSEC3, Class: dns.ClassINET}, Hash: dns.SHA1,
-				Iterations: uint16(iter), SaltLength: uint8(len(salt)), Salt: hex.EncodeToString(salt), HashLength: 20, NextDomain: b32.EncodeToString(nb)}
-			e := evCover{Ev: "cover", Owner: hx.FromString(rr.Hdr.Name), Next: hx.FromString(rr.NextDomain), Name: hx.FromString(name), Salt: hx.FromBytes(salt), Iter: iter,
-				H: hx.FromString(hs), Cover: rr.Cover(name), Match: rr.Match(name)}
-			seen["c"+rr.Hdr.Name+rr.NextDomain+name] = true
+			e := obsCover(ol+"."+zone, b32.EncodeToString(nb), name, salt, iter, hs)
+			seen["c"+e.Owner.String()+e.Next.String()+name] = true
 			w.Emit(e)
 		case 4:
 			// an instant t and two instants less than 2^31 s away from it; the fields are those mod 2^32
@@ -530,9 +587,7 @@ func record(out string, n int) {
 				return m
 			}
 			I, E := t+off(), t+off()
-			rr := &dns.RRSIG{Inception: uint32(uint64(I)), Expiration: uint32(uint64(E))}
-			e := evValid{Ev: "validity", I: limbs(rr.Inception), E: limbs(rr.Expiration), T: append([]int{int(t >> 32)}, limbs(uint32(t))...),
-				Valid: rr.ValidityPeriod(time.Unix(t, 0))}
+			e := obsValid(limbs(uint32(uint64(I))), limbs(uint32(uint64(E))), append([]int{int(t >> 32)}, limbs(uint32(t))...))
 			seen[fmt.Sprint("v", I, E, t)] = true
 			w.Emit(e)
 		case 5:
@@ -591,23 +646,24 @@ func finish(path string) {
 // ------------------------------------------------------------------ rerun
 
 type anyEv struct {
-	Ev    string `json:"ev"`
-	Flags int    `json:"flags"`
-	Proto int    `json:"proto"`
-	Alg   any    `json:"alg"`
-	Key   any    `json:"key"`
-	Owner hx.B   `json:"owner"`
-	Dt    int    `json:"dt"`
-	Name  hx.B   `json:"name"`
-	Salt  hx.B   `json:"salt"`
-	Iter  int    `json:"iter"`
-	Next  hx.B   `json:"next"`
-	I     []int  `json:"I"`
-	E     []int  `json:"E"`
-	T     any    `json:"t"`
-	H     any    `json:"h"`
-	S     int    `json:"s"`
-	Api   string `json:"api"`
+	Ev    string  `json:"ev"`
+	Flags int     `json:"flags"`
+	Proto int     `json:"proto"`
+	Alg   any     `json:"alg"`
+	Key   any     `json:"key"`
+	Owner hx.B    `json:"owner"`
+	Dt    int     `json:"dt"`
+	Name  hx.B    `json:"name"`
+	Salt  hx.B    `json:"salt"`
+	Iter  int     `json:"iter"`
+	Next  hx.B    `json:"next"`
+	I     []int   `json:"I"`
+	E     []int   `json:"E"`
+	T     any     `json:"t"`
+	H     any     `json:"h"`
+	S     int     `json:"s"`
+	Api   string  `json:"api"`
+	Lay   *layout `json:"lay"`
 }
 
 func ints(x any) []int {
@@ -633,35 +689,21 @@ func rerun(in, out string) {
 		sum.Evaluations++
 		switch e.Ev {
 		case "keytag":
-			alg := int(e.Alg.(float64))
-			o := evKeytag{Ev: e.Ev, Flags: e.Flags, Proto: e.Proto, Alg: alg, Key: hx.FromBytes(octets(e.Key))}
-			o.Tag = int(dnskey("x.", e.Flags, e.Proto, alg, octets(e.Key)).KeyTag())
-			w.Emit(o)
+			w.Emit(obsKeytag(e.Flags, e.Proto, int(e.Alg.(float64)), octets(e.Key)))
 		case "ds":
-			alg := int(e.Alg.(float64))
-			o := evDS{Ev: e.Ev, Owner: e.Owner, Flags: e.Flags, Proto: e.Proto, Alg: alg, Key: hx.FromBytes(octets(e.Key)), Dt: e.Dt}
-			ds := dnskey(e.Owner.String(), e.Flags, e.Proto, alg, octets(e.Key)).ToDS(uint8(e.Dt))
-			o.IsNil = ds == nil
-			if ds != nil {
-				o.Digest, o.DsTag = hx.FromString(ds.Digest), int(ds.KeyTag)
-			}
-			w.Emit(o)
+			w.Emit(obsDS(e.Owner.String(), e.Flags, e.Proto, int(e.Alg.(float64)), octets(e.Key), e.Dt))
 		case "hashname":
-			w.Emit(evHash{Ev: e.Ev, Name: e.Name, Salt: e.Salt, Iter: e.Iter,
-				Hash: hx.FromString(dns.HashName(e.Name.String(), dns.SHA1, uint16(e.Iter), hex.EncodeToString(e.Salt.Bytes())))})
+			w.Emit(obsHash(e.Name.String(), e.Salt.Bytes(), e.Iter))
 		case "cover":
-			salt := hex.EncodeToString(e.Salt.Bytes())
-			rr := &dns.NSEC3{Hdr: dns.RR_Header{Name: e.Owner.String(), Rrtype: dns.TypeNSEC3, Class: dns.ClassINET}, Hash: dns.SHA1,
-				Iterations: uint16(e.Iter), SaltLength: uint8(len(e.Salt)), Salt: salt, HashLength: 20, NextDomain: e.Next.String()}
-			name := e.Name.String()
-			w.Emit(evCover{Ev: e.Ev, Owner: e.Owner, Next: e.Next, Name: e.Name, Salt: e.Salt, Iter: e.Iter,
-				H: hx.FromString(dns.HashName(name, dns.SHA1, uint16(e.Iter), salt)), Cover: rr.Cover(name), Match: rr.Match(name)})
+			he := obsHash(e.Name.String(), e.Salt.Bytes(), e.Iter)
+			if he.Panic != "" {
+				w.Emit(he)
+			} else {
+				w.Emit(obsCover(e.Owner.String(), e.Next.String(), e.Name.String(), e.Salt.Bytes(), e.Iter, he.Hash.String()))
+			}
 		case "validity":
-			tl := ints(e.T)
-			rr := &dns.RRSIG{Inception: w32(e.I), Expiration: w32(e.E)}
-			t := int64(tl[0])<<32 | int64(tl[1])<<16 | int64(tl[2])
-			w.Emit(evValid{Ev: e.Ev, I: e.I, E: e.E, T: tl, Valid: rr.ValidityPeriod(time.Unix(t, 0))})
-		case "kl.reset", "kl.gen", "kl.provide", "kl.export", "kl.import", "kl.sign", "kl.verify":
+			w.Emit(obsValid(e.I, e.E, ints(e.T)))
+		case "kl.reset", "kl.gen", "kl.provide", "kl.export", "kl.relay", "kl.import", "kl.sign", "kl.verify":
 			run = kl.rerunStep(run, e, w)
 		case "rrsig":
 			// written again by the kl.sign it belongs to
